@@ -8,6 +8,8 @@ COMMON_TRUSTED = [
 ]
 COMMON_ASSUMPTIONS = [
     "floats are treated as real numbers: rounding, overflow, NaN/inf and denormals of float32/float64 are not modelled (DESIGN.md 4.1)",
+    "integer / bool payloads (uint8, int32, int64, bool tensors) are mathematical integers in the symbolic engine: wrap-around and truncation are invisible to discharged obligations; they are covered only by the bounded carrier sweeps (contracts/dtypes.py, C20.hard_decoders_dtypes_bounded) and by the differential cross-check, which runs the real kernels",
+    "objects are examined from the states the contracts put them in (fresh, after one earlier call with another batch size / kind / alphabet, after use-and-reset, after add-after-call); arbitrary longer call histories are not quantified over except where an obligation says so (C16 accumulators, C17 step lists)",
     "configurations (code parameters, orders, shapes/layouts) are enumerated up to the stated grid; 'proved' means for all input values per enumerated configuration",
     "torch operations behave as documented; device is CPU",
 ]
